@@ -49,11 +49,12 @@ A1 = ['var', 'a1']
 PARAMS = [['n', 'integer'], ['t', 'string'], ['c', 'boolean']]
 
 
-def callee(kind, form, name='T'):
+def callee(kind, form, name='T', pure=False):
     body = [['assign', X, ['bin', '*', ['param', 'n'], ['int', 2]]],
             ['assign', U, ['bin', '+', ['param', 't'], ['str', '!']]],
-            ['assign', P, ['un', 'not', ['param', 'c']]],
-            ['create', None, 'B']]
+            ['assign', P, ['un', 'not', ['param', 'c']]]]
+    if not pure:
+        body.append(['create', None, 'B'])      # every invocation leaves a trace in the population
     if kind == 'iop':
         body.append(['assign', X, ['bin', '+', X, ['attr', ['self'], 'i']]])
     ret = form if form in ('int', 'str', 'bool') else None
@@ -83,7 +84,7 @@ CONTEXTS = ('python', 'stmt', 'assign', 'expr', 'arg', 'if-cond', 'elif-cond', '
 def template_case(kind, form, context, order):
     """One callee of the given kind / return form and a caller `main` that invokes it in the given context; the caller keeps
     x, u, p of its own (the callee assigns variables of the same names) and stores them in the population at the end."""
-    cal = callee(kind, form)
+    cal = callee(kind, form, pure=(context == 'where'))
     lit = [['int', 3], ['str', 's'], ['bool', False]]
     c = call(kind, lit[0], lit[1], lit[2], order)
     if context == 'python':
@@ -121,7 +122,8 @@ def template_case(kind, form, context, order):
             mid = [['assign', Y, ['int', 9]],
                    ['if', ['bool', False], [['assign', Y, ['int', 0]]], [[cond, [['assign', Y, ['int', 1]]]]], [['assign', Y, ['int', 2]]]]]
         else:
-            mid = [['assign', Y, ['int', 0]], ['while', ['bin', 'and', cond, ['bin', '<', Y, ['int', 2]]], [['assign', Y, ['bin', '+', Y, ['int', 1]]]]]]
+            mid = [['assign', Y, ['int', 0]],
+                   ['while', cond, [['assign', Y, ['bin', '+', Y, ['int', 1]]], ['if', ['bin', '>=', Y, ['int', 2]], [['break']], [], None]]]]
     elif context == 'where':
         w = dict(int=['bin', '<=', ['attr', ['selected'], 'i'], ['bin', '-', c, ['int', 4]]], str=['bin', '!=', ['attr', ['selected'], 's'], c],
                  bool=['bin', '==', ['attr', ['selected'], 'b'], c])[form]
